@@ -265,6 +265,23 @@ Proof.
 Qed.
 Print Assumptions C06_echo_needs_all_senders.
 
+(* ---- phase duration ---- *)
+
+(* With the phaser built from config.TimeBetweenDKGPhases (read from the source on every run,
+   [phaser_ok], the DPhaser correspondence case) every bundle that arrives within the configured
+   phase duration is processed in its phase, whatever the kick-off grace period is. *)
+Theorem C06_phase_window : forall src c delay,
+  phaser_ok src = true -> 0 <= delay < t_phase c -> arrives_in_phase src c delay = true.
+Proof. exact phase_window. Qed.
+Print Assumptions C06_phase_window.
+
+(* and the obligation is needed: a phaser built from the grace period (drand's defaults: 5 s and
+   10 s) drops a bundle that arrives after 7 s of a 10 s phase *)
+Theorem C06_phase_needs_configured_duration :
+  exists c delay, 0 <= delay < t_phase c /\ arrives_in_phase PhKickoffGracePeriod c delay = false.
+Proof. exists (mkT 10 5), 7. split; [cbn; lia|reflexivity]. Qed.
+Print Assumptions C06_phase_needs_configured_duration.
+
 (* ---- non-vacuity ---- *)
 
 Definition ex_pA := mkP [97] [9; 1] [1] true.
